@@ -40,6 +40,24 @@ def c01_random(ctx, n_core, n_ext):
         hs.append(dict(id="pm-%d" % i, opt=dict(shards=0, watchwithoutclass=True), steps=steps))
     # tcp services sharing a port between a host-less ingress and SNI hostnames
     hs += [U.random_tcp_history(rng, "rt-%d" % i, steps=4 + rng.randrange(3)) for i in range(max(60, n_ext // 4))]
+    # strict-host: hosts without a root path borrow the one of the default host (or the default backend), which comes, goes and changes
+    for i in range(max(40, n_ext // 8)):
+        opt = dict(shards=rng.choice([0, 3]), watchwithoutclass=True)
+        if rng.random() < 0.5:
+            opt["defaultsvc"] = "d/s2"
+        steps = [dict(ops=U.base_ops() + [U.op_sec("c1", "crt:c1"), U.op_sec("c2", "crt:c2"), U.op_cm({"strict-host": "true"}),
+                                          U.op_ing(1, rng.choice(["t2", "t5", "t6", "t11"])), U.op_ing(2, rng.choice(["t4", "t9", "t12"]))])]
+        for k in range(3 + rng.randrange(3)):
+            r = rng.random()
+            if r < 0.4:
+                steps.append(dict(ops=[U.op_ing(3, rng.choice(["t8", "t15", "t16"]), rng.choice([None, None, {"redirect-to": "https://x.local"}, {"balance-algorithm": "leastconn"}]))]))
+            elif r < 0.6:
+                steps.append(dict(ops=[U.op_del("ing", "d/i3")]))
+            elif r < 0.8:
+                steps.append(dict(ops=[U.op_ing(rng.choice([1, 2]), rng.choice(["t1", "t2", "t4", "t6", "t9"]))]))
+            else:
+                steps.append(dict(ops=[U.op_eps(rng.choice(["s1", "s2"]), rng.choice(["e0", "e1", "e2"]))]))
+        hs.append(dict(id="st-%d" % i, opt=opt, steps=steps))
     # TCP services of the tcp-services ConfigMap
     hs += [U.random_tcpcm_history(rng, "rm-%d" % i, steps=4 + rng.randrange(3)) for i in range(max(60, n_ext // 5))]
     # pods behind the endpoints: drain-support, blue/green by pod label, names, cookies and ids taken from the pod
@@ -111,7 +129,8 @@ def run(ctx):
     hs += c01_random(ctx, 150 if q else 3000, 250 if q else 5000)
     out, inp = ctl.run_histories(ctx, hs, "c01", fresh=2)
     res = ctl.judge(ctx, out, "c01")
-    events = ctl.report(ctx, res, out, inp, INVS)
+    # strict-host histories: one listed finding (F35), whatever the difference looks like
+    events = ctl.report(ctx, res, out, inp, INVS, extra_sig=lambda s, e, h: (s.split(":")[0] + ":strict-host") if h["id"].startswith("st-") and e["step"] > 0 else s)
     states = [e for e in events if e["ev"] == "State"]
     nondet = sum(1 for e in states if len(set(e["fresh"])) > 1)
     if res["drift"]:
